@@ -152,6 +152,8 @@ def gen_cases(rec, rng, tier):
     for k in (5, 6, 7, 9, 10, 11, 13, 15, 16, 20, 33):
         if (k + rec.shard) % 2 == 0:
             for back in (False, True):
+                if k == 33 and back and rec.shard % 4 == 1:
+                    yield {'cls': 'eps_chain_beyond_recursion_limit', 'ref': fag.eps_chain(1100, accept_end=True), 'eps': '', 'container': 'defaultdict_set', 'requery': False}
                 yield {'cls': 'eps_chain', 'ref': fag.eps_chain(k, back_edge=back, accept_end=(k % 3 != 0)), 'eps': rng.choice(['', 'ε']), 'container': rng.choice(conts), 'notebook': True}
     for R in fag.thompson_nfas(rng, 60 if thorough else 15):
         yield {'cls': 'thompson_nfa', 'ref': R, 'eps': rng.choice(['', '_', 'ε']), 'container': rng.choice(conts), 'notebook': rng.random() < 0.3}
